@@ -71,6 +71,10 @@ pub struct SCon {
 pub struct SrcModel {
     pub vars: Vec<Var>,
     pub cons: Vec<SCon>,
+    /// A point the generator planted (checked exactly before use); lets the run ask whether
+    /// the compiled model still admits a known source-feasible assignment.
+    #[serde(default)]
+    pub witness: Option<Vec<Dec>>,
 }
 
 #[derive(Clone, Debug, PartialEq, Serialize, Deserialize)]
@@ -765,6 +769,7 @@ pub struct BoundsProbes {
     pub exprs_checked: u64,
     pub oracle_unavailable: bool,
     pub published_box_checked: bool,
+    pub extension_checked: bool,
 }
 
 pub struct BoundsRun {
@@ -1150,6 +1155,25 @@ pub fn run_bounds_case(case: &BoundsCase) -> BoundsRun {
         Ok(Ok(lm)) => {
             probes.linearize_ok = true;
             check_published("Linearizer::linearize", lm.domain(), &mut v, &mut probes);
+            // every published range, those of the compiler's auxiliary variables included:
+            // a known source-feasible assignment of the declared variables must still be
+            // extendable to the compiled model (some values of the auxiliaries inside their
+            // published ranges satisfy every row)
+            if let Some(w) = witness_if_feasible(m) {
+                match extension_feasible(m, &lm, &w) {
+                    Some(true) => probes.extension_checked = true,
+                    Some(false) => v(
+                        "compiled-model-cuts-feasible-point",
+                        format!(
+                            "budget {:?}: the source-feasible assignment {:?} cannot be extended to the compiled model (rows and published ranges, auxiliaries included): {}",
+                            case.k,
+                            w.iter().map(|q| q.to_string()).collect::<Vec<_>>(),
+                            lm.to_string().replace('\n', " / ")
+                        ),
+                    ),
+                    None => {}
+                }
+            }
         }
         Ok(Err(_)) => probes.linearize_err = true,
         Err(p) => v(
@@ -1172,6 +1196,135 @@ pub fn run_bounds_case(case: &BoundsCase) -> BoundsRun {
         probes,
         steps_used,
         state_hash: fnv(&state_bytes),
+    }
+}
+
+/// The planted point, if it really satisfies every source constraint and domain (exactly).
+fn witness_if_feasible(m: &SrcModel) -> Option<Vec<Q>> {
+    let w: Vec<Q> = m.witness.as_ref()?.iter().map(|d| d.q()).collect();
+    if w.len() != m.vars.len() {
+        return None;
+    }
+    for (q, var) in w.iter().zip(&m.vars) {
+        let (lo, hi) = var.dom.bounds_q();
+        if lo.is_some_and(|l| *q < l) || hi.is_some_and(|h| *q > h) {
+            return None;
+        }
+        if var.dom.is_integer() && !q.is_integer() {
+            return None;
+        }
+    }
+    for c in &m.cons {
+        let d = c.lhs.eval_q(&w).sub(c.rhs.eval_q(&w));
+        let ok = match c.cmp {
+            Cmp::Le => !d.is_pos(),
+            Cmp::Ge => !d.is_neg(),
+            Cmp::Eq => d.is_zero(),
+        };
+        if !ok {
+            return None;
+        }
+    }
+    Some(w)
+}
+
+/// With the declared variables fixed at `w`, is there an assignment of the remaining
+/// (auxiliary) variables of the compiled model, inside their published ranges, that
+/// satisfies every row? Rows are relaxed by 1e-7 (relative to their scale) to absorb the
+/// f64 reading of decimal constants. `None` when the question cannot be decided here.
+fn extension_feasible(m: &SrcModel, lm: &rooc::LinearModel, w: &[Q]) -> Option<bool> {
+    use crate::model::{GenModel, Row, Sense};
+    let names = lm.variables();
+    let decl: Vec<Option<usize>> = names
+        .iter()
+        .map(|n| m.vars.iter().position(|v| &v.name == n))
+        .collect();
+    // published ranges of the declared variables must contain the witness (clause 1
+    // already checks that against the exact extremes; here against this very point)
+    let mut aux_vars: Vec<crate::model::Var> = Vec::new();
+    let mut aux_cols: Vec<usize> = Vec::new();
+    for (j, n) in names.iter().enumerate() {
+        if decl[j].is_some() {
+            continue;
+        }
+        let t = lm.domain().get(n)?.get_type();
+        let dom = match t {
+            VariableType::Boolean => Dom::Bool,
+            VariableType::IntegerRange(lo, hi) => Dom::Int { lo: *lo, hi: *hi },
+            VariableType::Real(lo, hi) | VariableType::NonNegativeReal(lo, hi) => {
+                if lo.is_nan() || hi.is_nan() {
+                    return Some(false);
+                }
+                Dom::Real {
+                    lo: lo.is_finite().then_some(*lo),
+                    hi: hi.is_finite().then_some(*hi),
+                }
+            }
+        };
+        aux_vars.push(crate::model::Var {
+            name: n.clone(),
+            dom,
+        });
+        aux_cols.push(j);
+    }
+    if aux_vars.iter().filter(|v| !v.dom.is_integer()).count() > 4
+        || aux_vars
+            .iter()
+            .filter_map(|v| v.dom.int_range())
+            .map(|(lo, hi)| (hi - lo + 1).max(1) as u64)
+            .product::<u64>()
+            > 4096
+    {
+        return None;
+    }
+    let mut rows: Vec<Row> = Vec::new();
+    for c in lm.constraints() {
+        let coefs = c.coefficients();
+        // constant part contributed by the fixed declared variables, exactly
+        let mut fixed = Q::ZERO;
+        let mut scale = c.rhs().abs().max(1.0);
+        for (j, a) in coefs.iter().enumerate() {
+            if let Some(i) = decl[j] {
+                if *a != 0.0 {
+                    let term = Q::from_f64(*a).mul(w[i]);
+                    scale = scale.max(term.to_f64().abs());
+                    fixed = fixed.add(term);
+                }
+            }
+        }
+        let rhs = Q::from_f64(c.rhs()).sub(fixed).to_f64();
+        let tol = 1e-7 * scale;
+        let aux_coefs: Vec<f64> = aux_cols.iter().map(|j| coefs[*j]).collect();
+        let mut push = |cmp: Cmp, rhs: f64| {
+            rows.push(Row {
+                name: String::new(),
+                coefs: aux_coefs.clone(),
+                cmp,
+                rhs,
+            })
+        };
+        match c.constraint_type() {
+            Comparison::LessOrEqual | Comparison::Less => push(Cmp::Le, rhs + tol),
+            Comparison::GreaterOrEqual | Comparison::Greater => push(Cmp::Ge, rhs - tol),
+            Comparison::Equal => {
+                push(Cmp::Le, rhs + tol);
+                push(Cmp::Ge, rhs - tol);
+            }
+        }
+    }
+    let n = aux_vars.len();
+    let g = GenModel {
+        vars: aux_vars,
+        rows,
+        obj: vec![0.0; n],
+        offset: 0.0,
+        sense: Sense::Satisfy,
+    };
+    let verdict = catch_unwind(AssertUnwindSafe(|| oracle::decide(&g).verdict));
+    match verdict {
+        Ok(Verdict::Infeasible) => Some(false),
+        Ok(_) => Some(true),
+        Err(_) => None, // the exact reference overflowed on this data: undecided
     }
 }
 
@@ -1415,6 +1568,16 @@ fn plant_feasible(rng: &mut Rng, m: &mut SrcModel) {
             d: shift.denom() as i64,
         };
         c.rhs = SExp::Add(Box::new(c.rhs.clone()), Box::new(SExp::Num(d)));
+    }
+    if star.iter().all(|q| q.denom() <= 1000 && q.numer().abs() < 1_000_000_000) {
+        m.witness = Some(
+            star.iter()
+                .map(|q| Dec {
+                    n: q.numer() as i64,
+                    d: q.denom() as i64,
+                })
+                .collect(),
+        );
     }
 }
 
@@ -1758,5 +1921,12 @@ fn gen_src_model_once(rng: &mut Rng) -> (String, SrcModel) {
             "integer-rounding"
         }
     };
-    (label.to_string(), SrcModel { vars, cons })
+    (
+        label.to_string(),
+        SrcModel {
+            vars,
+            cons,
+            witness: None,
+        },
+    )
 }
